@@ -6,7 +6,13 @@
 (*   C07 (state invariants, every event): sizes unique noSelf rightBucket ipBucket ipTable      *)
 (*        lists known noPanic                                                                   *)
 (*   C18 (action properties, "op" events): noEviction fullKeeps removalCause succession         *)
-(*        recordVersion endpointClearsLive credit                                               *)
+(*        recordVersion endpointClearsLive creditKept creditSpent creditExhausted               *)
+(* The statement does not fix the rate at which failed checks consume credit (the pinned code    *)
+(* divides by 3): the judge demands that a passed check never costs credit, that a failed check  *)
+(* an entry survives costs credit, and that removals at failed checks are consistent with ONE    *)
+(* monotone decay rule over the whole trace (every credit at which an entry was removed lies     *)
+(* below every credit at which one survived).  The pinned arithmetic (+1, div 3) is compared     *)
+(* too, but only reported as drift.                                                              *)
 (* Real constants: 17 buckets, bucket size 16, 10 replacements, 2 per /24 per bucket, 10 per    *)
 (* /24 per table, 5 failures, bucketSize/4 = 4.                                                *)
 EXTENDS Integers, Sequences, FiniteSets, TLC, Json, SequencesExt
@@ -16,8 +22,8 @@ Trace == ndJsonDeserialize("trace.ndjson")
 NB == 17   BS == 16   MR == 10   BIL == 2   TIL == 10   MaxFails == 5   MinBkt == 4
 BucketIndex(ld) == IF ld <= 240 THEN 0 ELSE ld - 240      \* bucketAtDistance: d <= 239 -> 0, else d - 240
 
-VARIABLES l, tab, viol
-vars == <<l, tab, viol>>
+VARIABLES l, tab, viol, maxRem, minStay, drift
+vars == <<l, tab, viol, maxRem, minStay, drift>>
 
 EmptyTab == [b \in 0..(NB - 1) |-> [e |-> <<>>, r |-> <<>>]]
 Apply(t, ch) == [b \in 0..(NB - 1) |->
@@ -66,7 +72,7 @@ Act(pre, post, o) ==
                                                           IF Len(pre[b0].r) >= MR THEN MR ELSE Len(pre[b0].r) + 1),
     removalCause |-> \A b \in 0..(NB - 1) : \A n \in Removed(b) :
                         \/ o.name = "delete" /\ o.id = n
-                        \/ o.name = "reval" /\ o.id = n /\ ~o.alive /\ o.credit \div 3 = 0
+                        \/ o.name = "reval" /\ o.id = n /\ ~o.alive
                         \/ o.name = "track" /\ o.id = n /\ ~o.ok /\ o.fails >= MaxFails /\ o.nb >= MinBkt,
     succession |-> \A b \in 0..(NB - 1) : Removed(b) # {} =>
                         IF pre[b].r = <<>> THEN Len(post[b].e) = Len(pre[b].e) - 1 /\ post[b].r = <<>>
@@ -79,30 +85,49 @@ Act(pre, post, o) ==
     endpointClearsLive |-> \A b \in 0..(NB - 1) : \A n \in IdsOf(pre[b].e) \cap IdsOf(post[b].e) :
                         LET x == Find(pre[b].e, n)  y == Find(post[b].e, n) IN
                         EndpointChanged(x, y) => ~y.live,
-    credit |-> (o.name = "reval" /\ o.isentry) =>
-                   IF o.alive THEN o.id \in IdsOf(post[b0].e) /\ Find(post[b0].e, o.id).chk = o.credit + 1
-                   ELSE IF o.credit \div 3 = 0 THEN o.id \notin IdsOf(post[b0].e)
-                   ELSE o.id \in IdsOf(post[b0].e) /\ Find(post[b0].e, o.id).chk = o.credit \div 3 ]
+    creditKept |-> (o.name = "reval" /\ o.isentry /\ o.alive) =>
+                      o.id \in IdsOf(post[b0].e) /\ Find(post[b0].e, o.id).chk >= o.credit,
+    creditSpent |-> (o.name = "reval" /\ o.isentry /\ ~o.alive /\ o.id \in IdsOf(post[b0].e)) =>
+                      Find(post[b0].e, o.id).chk < o.credit ]
 
-Init == l = 1 /\ tab = EmptyTab /\ viol = {}
+\* failed liveness check of an entry: did it leave?
+FailedReval(o) == o.name = "reval" /\ o.isentry /\ ~o.alive
+Left(post, o) == o.id \notin IdsOf(post[BucketIndex(o.ld)].e)
+Mx(a, b) == IF a > b THEN a ELSE b
+Mn(a, b) == IF a < b THEN a ELSE b
+\* the pinned arithmetic (drift only)
+Pinned(post, o) ==
+  LET b0 == BucketIndex(o.ld) IN
+  (o.name = "reval" /\ o.isentry) =>
+     IF o.alive THEN o.id \in IdsOf(post[b0].e) /\ Find(post[b0].e, o.id).chk = o.credit + 1
+     ELSE IF o.credit \div 3 = 0 THEN o.id \notin IdsOf(post[b0].e)
+     ELSE o.id \in IdsOf(post[b0].e) /\ Find(post[b0].e, o.id).chk = o.credit \div 3
+
+Init == l = 1 /\ tab = EmptyTab /\ viol = {} /\ maxRem = -1 /\ minStay = 1000000 /\ drift = {}
 
 Next ==
   /\ l <= Len(Trace)
   /\ l' = l + 1
   /\ LET e == Trace[l] IN
-     CASE e.ev = "init" -> tab' = EmptyTab /\ UNCHANGED viol
+     CASE e.ev = "init" -> tab' = EmptyTab /\ UNCHANGED <<viol, maxRem, minStay, drift>>
        [] e.ev = "op" ->
-            LET post == Apply(tab, e.ch) IN
-            /\ tab' = post
-            /\ viol' = viol \cup {<<l, f>> : f \in Failed(Inv(post, e)) \cup Failed(Act(tab, post, e.op))}
+            LET post == Apply(tab, e.ch)
+                o == e.op
+                mr == IF FailedReval(o) /\ Left(post, o) THEN Mx(maxRem, o.credit) ELSE maxRem
+                ms == IF FailedReval(o) /\ ~Left(post, o) THEN Mn(minStay, o.credit) ELSE minStay IN
+            /\ tab' = post /\ maxRem' = mr /\ minStay' = ms
+            /\ drift' = IF Pinned(post, o) THEN drift ELSE drift \cup {<<l, "creditArithmetic">>}
+            /\ viol' = viol \cup {<<l, f>> : f \in Failed(Inv(post, e)) \cup Failed(Act(tab, post, o))}
+                             \cup (IF FailedReval(o) /\ mr >= ms THEN {<<l, "creditExhausted">>} ELSE {})
        [] e.ev = "snap" ->
             LET post == Apply(tab, e.ch) IN
             /\ tab' = post
             /\ viol' = viol \cup {<<l, f>> : f \in Failed(Inv(post, e))}
-       [] OTHER -> UNCHANGED <<tab, viol>>
+            /\ UNCHANGED <<maxRem, minStay, drift>>
+       [] OTHER -> UNCHANGED <<tab, viol, maxRem, minStay, drift>>
 
 Spec == Init /\ [][Next]_vars
 Done == l = Len(Trace) + 1
-Report == Done => PrintT(<<"VIOL", ToJson(viol)>>)
+Report == Done => PrintT(<<"VIOL", ToJson(viol)>>) /\ PrintT(<<"DRIFT", ToJson(drift)>>)
 TraceAccepted == TLCGet("stats").diameter = Len(Trace) + 1
 ===============================================================================
